@@ -50,11 +50,19 @@ def build(params):
             if fail_at is not None and rows.res.name == 'res_%d' % (fail_at[0] + 1) and i == fail_at[1]:
                 raise ValueError('injected')
             yield r
+    dfail = params.get('down_fail_at')
+
+    def downstream(rows):
+        # a step *behind* the checkpoint that fails while rows still stream through the checkpoint
+        for i, r in enumerate(rows):
+            if dfail is not None and rows.res.name == 'res_%d' % (dfail[0] + 1) and i == dfail[1]:
+                raise {'ValueError': ValueError, 'KeyboardInterrupt': KeyboardInterrupt, 'SystemExit': SystemExit}[dfail[2]]('downstream')
+            yield r
     import contextlib
     import io
     with contextlib.redirect_stdout(io.StringIO()):
         res, dp, _ = Flow(*sources, trim, marker, maybe_fail,
-                          DF.checkpoint('cp', checkpoint_path=params['ckdir'])).results()
+                          DF.checkpoint('cp', checkpoint_path=params['ckdir']), downstream).results()
     return {'rows': [[canon.norm_row(canon.enc_row(r)) for r in rs] for rs in res],
             'fields': [[f['name'], f['type']] for r in dp.descriptor['resources'] for f in r['schema']['fields']]}
 
@@ -229,6 +237,47 @@ def source_fail_run(ctx):
     shutil.rmtree(base, ignore_errors=True)
 
 
+def downstream_fail_run(ctx):
+    """a step behind the checkpoint fails (an exception, Ctrl-C, sys.exit) while rows still stream through the checkpoint:
+    the writer is abandoned half-way — whatever finalises it must not publish the file; the next run returns the
+    uninterrupted result, and a checkpoint that is there is complete"""
+    rep = ctx.report
+    shape = [5, 3]
+    base = os.path.join(ctx.scratch, 'downfail')
+    final_rel = os.path.join('cp', 'stream.ndjson')
+
+    def fresh(tag):
+        d = os.path.join(base, tag)
+        os.makedirs(os.path.join(d, 'ck'), exist_ok=True)
+        return d, {'rows': shape, 'ckdir': os.path.join(d, 'ck'), 'counter': os.path.join(d, 'counter')}
+    d0, p0 = fresh('baseline')
+    b = fsfault.run_child('harness.props.c08:build', p0, p0['ckdir'], d0, 'base')
+    if b['returncode'] != 0 or b['result'] is None:
+        raise RuntimeError('baseline child failed: %r %s' % (b['returncode'], b['stderr']))
+    complete = count_lines(os.path.join(p0['ckdir'], final_rel))
+    points = [(0, 0), (0, 2), (0, 4), (1, 0), (1, 2)]
+    kinds = ['ValueError', 'KeyboardInterrupt', 'SystemExit']
+    for n, (ri, at) in enumerate(points):
+        for kind in (kinds if ctx.quick is False or n % 2 == 0 else kinds[:1]):
+            d, p = fresh('d%d_%d_%s' % (ri, at, kind))
+            p['down_fail_at'] = [ri, at, kind]
+            r = fsfault.run_child('harness.props.c08:build', p, p['ckdir'], d, 'fail')
+            case = {'rows_per_resource': shape, 'step_behind_the_checkpoint_fails_at': [ri, at], 'with': kind}
+            rep.case('downstream-failure', case, key=['downfail', ri, at, kind])
+            if r['returncode'] == 0 and r['result'] is not None:
+                rep.fail('downstream-failure-did-not-fail-the-run', case, {})
+            final = os.path.join(p['ckdir'], final_rel)
+            if os.path.exists(final) and count_lines(final) != complete:
+                rep.fail('incomplete-checkpoint-published', case, {'lines': count_lines(final), 'complete': complete,
+                                                                   'ops': [o[1] for o in r['trace']][-4:]})
+            del p['down_fail_at']
+            r2 = fsfault.run_child('harness.props.c08:build', p, p['ckdir'], d, 'rerun')
+            if r2['result'] != b['result']:
+                rep.fail('next-run-differs-after-failure', case, {'rows': [len(x) for x in (r2['result'] or {}).get('rows', [])]})
+            shutil.rmtree(d, ignore_errors=True)
+    shutil.rmtree(base, ignore_errors=True)
+
+
 def same_object_retry(ctx):
     """a retry loop around one Flow object: the first attempt fails while the checkpoint is being written, the same
     object is run again; what is then on disk is the checkpoint of an uninterrupted run, and the next run returns it"""
@@ -306,6 +355,7 @@ def run(ctx):
     for idx, shape in enumerate(shapes):
         shape_run(ctx, shape, idx)
     source_fail_run(ctx)
+    downstream_fail_run(ctx)
     same_object_retry(ctx)
 
     def search(disagreements):
